@@ -743,7 +743,7 @@ def build_tasks(ctx, flavour, quick):
                     if c is not None:
                         ex['labels'] = c
                 add(algo, g, ex)
-    for algo, g, ex in boundary_cases(rng, quick) + midrange_cases(rng, quick):
+    for algo, g, ex in boundary_cases(rng, quick) + midrange_cases(rng, quick) + isomorphism_pairs(rng, quick):
         add(algo, g, ex)
     rng.shuffle(tasks)
     for i, t in enumerate(tasks):
@@ -934,6 +934,47 @@ def midrange_cases(rng, quick):
     return out
 
 
+def edges_graph(rng, n, k, name):
+    """undirected simple graph with exactly k edges (2k stored entries) on n nodes"""
+    slots = [(i, j) for i in range(n) for j in range(i + 1, n)]
+    es = rng.sample(slots, k)
+    return gdict(name, _csr(n, es + [(j, i) for (i, j) in es]))
+
+
+def isomorphism_pairs(rng, quick):
+    """are_isomorphic on PAIRS of graphs (seeded change C17r3): equal numbers of stored entries with different node
+    counts in both orders (the buffers of the kernel are sized by one graph and swept by the other), equal node counts
+    with different edges, different entry counts; a few large differences (50 against 1 500 / 30 000 nodes) that turn a
+    missing guard into a crash of the plain build."""
+    out = []
+
+    def both(g1, g2, ex=None):
+        out.append(('are_isomorphic_pair', g1, dict(ex or {}, graph2=g2)))
+        out.append(('are_isomorphic_pair', g2, dict(ex or {}, graph2=g1)))
+    k4 = gdict('K4', _csr(4, graphs.structured(rng, 'clique', 4)))
+    house = gdict('house', _csr(5, [(0, 1), (0, 4), (1, 2), (1, 4), (2, 3), (3, 4)] +
+                                [(1, 0), (4, 0), (2, 1), (4, 1), (3, 2), (4, 3)]))
+    both(k4, house)
+    for c in range(12 if quick else 80):
+        n1 = rng.randint(3, 11)
+        n2 = n1 + rng.randint(1, 6) if c % 4 else n1
+        k = rng.randint(1, n1 * (n1 - 1) // 2)
+        g1 = edges_graph(rng, n1, k, 'iso_a%d_%d' % (n1, k))
+        k2 = k if c % 5 else min(k + 1, n2 * (n2 - 1) // 2)
+        g2 = edges_graph(rng, n2, k2, 'iso_b%d_%d' % (n2, k2))
+        both(g1, g2, {'params': {'max_iter': rng.choice([-1, 1, 3])}} if c % 3 == 0 else None)
+    g50 = edges_graph(rng, 50, 1000, 'iso_50_1000')
+    for n2 in ((1500, 30000) if quick else (60, 400, 1500, 8000, 30000)):
+        chosen = set()
+        while len(chosen) < 1000:           # exactly as many edges as g50
+            i, j = rng.randrange(n2), rng.randrange(n2)
+            if i != j:
+                chosen.add((min(i, j), max(i, j)))
+        es = sorted(chosen)
+        both(g50, gdict('iso_%d_1000' % n2, _csr(n2, es + [(j, i) for (i, j) in es])))
+    return out
+
+
 def task_sig(t, kind):
     p = graph_props(t['graph'])
     lab = (t.get('extra') or {}).get('labels')
@@ -946,6 +987,10 @@ def task_sig(t, kind):
            'solver': params.get('solver'), 'n_ge_16': p['n'] >= 16}
     if kind == 'scaling':
         sig['family'] = t['graph'].get('gen')
+    g2 = (t.get('extra') or {}).get('graph2')
+    if g2 is not None:
+        sig['pair_node_counts_differ'] = g2['n'] != p['n']
+        sig['pair_equal_nnz'] = len(g2['indices']) == p['nnz']
     return sig
 
 
@@ -961,7 +1006,7 @@ def judge(ctx, tasks, results, flavour):
         key = (flavour, t['algo'], json.dumps(t['extra'], sort_keys=True), t['graph']['name'], tuple(t['graph'].get('indices') or [t['graph'].get('seed')]),
                tuple(t['graph'].get('indptr') or [t['graph']['n']]))
         kind = None
-        ctx.case(key, p['nnz'] > 0, sample={'request': '%s %s on %s (%s build)' % (t['algo'], t['extra'], t['graph']['name'], flavour),
+        ctx.case(key, p['nnz'] > 0, sample={'request': '%s %s on %s (%s build)' % (t['algo'], str(t['extra'])[:300], t['graph']['name'], flavour),
                                             'model': 'returns or raises within the limit; no bounds violation',
                                             'impl': {k: r.get(k) for k in ('status', 'exc', 'wall', 'out')}})
         ctx.count('%s:%s' % (flavour, st if st != 'exc' else 'raises:' + str(r.get('exc'))))
@@ -1020,6 +1065,35 @@ def contract_lines(ctx, tasks, results):
             seen.add(line)
             lines.append(line)
             meta.append((t, c))
+    # weisfeiler_lehman_coloring: `powers[labels[j]]` is the one fixed-array site of this kernel the kinds cannot type
+    # (covered on the model by wl_colours_in_range); on the recorded arguments the colours handed in must index `powers`
+    # and both buffers must cover the graph that is swept (seeded change C17r3)
+    for t in tasks:
+        for c in (results.get(t['id']) or {}).get('calls') or []:
+            if c.get('kernel') != 'weisfeiler_lehman_coloring' or 'args' not in c:
+                continue
+            a = c['args']
+            try:
+                n = a['indptr']['len'] - 1
+                nl, npow = a['labels']['len'], a['powers']['len']
+                ints = a['labels'].get('ints')
+            except (KeyError, TypeError):
+                ctx.count('contract:skipped-unencodable')
+                continue
+            bad = None
+            if nl < n or npow < n:
+                bad = 'buffers shorter than the graph: n = %d, len(labels) = %d, len(powers) = %d' % (n, nl, npow)
+            elif ints is not None and ints and (min(ints) < 0 or max(ints) >= npow):
+                bad = 'a colour outside powers: min %d, max %d, len(powers) = %d' % (min(ints), max(ints), npow)
+            ctx.count('contract:wl-buffers')
+            if bad:
+                sig = task_sig(t, 'contract')
+                sig['kernel'] = 'weisfeiler_lehman_coloring'
+                sig['violated'] = 'wl-buffers'
+                ctx.spec_fail(sig, {'task': {k2: t[k2] for k2 in ('algo', 'graph', 'extra', 'flavour')}},
+                              {'what': 'weisfeiler_lehman_coloring was entered with ' + bad +
+                                       ' (the kernel writes labels[i] for every i < n and reads powers[labels[j]])'})
+                break
     answers = ctx.lean(lines) if lines else []
     # the translated kernels are *run* (step-bounded interpreter, pseudo-random oracles) on arguments the real kernels
     # were entered with: no read of an unassigned variable, no out-of-bounds access at a kinded site (review M4)
@@ -1476,7 +1550,7 @@ KERNEL_TO_ALGOS = {
     'push_pagerank': ['PageRank'],
     'count_local_triangles_from_dag': ['count_triangles', 'count_triangles_parallel', 'get_clustering_coefficient'],
     'count_triangles_from_dag': ['count_triangles', 'count_triangles_parallel', 'get_clustering_coefficient'],
-    'weisfeiler_lehman_coloring': ['color_weisfeiler_lehman', 'are_isomorphic'],
+    'weisfeiler_lehman_coloring': ['color_weisfeiler_lehman', 'are_isomorphic', 'are_isomorphic_pair'],
     'compute_core': ['get_core_decomposition', 'count_cliques', 'count_cliques4'],
     'MinHeap.swap': ['get_core_decomposition', 'count_cliques'], 'MinHeap.insert_key': ['get_core_decomposition', 'count_cliques'],
     'MinHeap.decrease_key': ['get_core_decomposition', 'count_cliques'], 'MinHeap.pop_min': ['get_core_decomposition', 'count_cliques'],
